@@ -478,7 +478,7 @@ func (ufs *Ufs) Create(req *SrvReq) {
 				mode |= syscall.S_ISGID
 			}
 		}
-		file, e = os.OpenFile(path, omode2uflags(tc.Mode)|os.O_CREATE, os.FileMode(mode))
+		file, e = os.OpenFile(path, omode2uflags(tc.Mode)|os.O_CREATE|os.O_EXCL, os.FileMode(mode))
 	}
 
 	// from here on a failure must take the new entry away again: the
